@@ -624,6 +624,14 @@ func genGlob(rng *rand.Rand, name string) string {
 }
 
 func genPart(rng *rand.Rand, name, typ string) string {
+	if strings.Contains(name, ".") {
+		// a name with a dot can only be written as a quoted literal part (no glob characters or selector survive the quotes'
+		// CSV syntax next to them); sometimes fall back to a wildcard
+		if rng.IntN(4) == 0 {
+			return "*"
+		}
+		return `"` + strings.ReplaceAll(name, `"`, `""`) + `"`
+	}
 	g := genGlob(rng, name)
 	if rng.IntN(100) < 35 {
 		var ts []string
